@@ -85,45 +85,6 @@ def parseMetric? : String → Option Metric
   | "masym" => some .masym | "relloss" => some .relloss
   | _ => none
 
-structure Args where
-  yt : Mat
-  yp : Mat
-  yb : Option Mat
-  ytr : Option Train
-  sp : Int
-  ix : Option (Int × Int)
-  hw : Option (List Rat)
-  mo : MO
-  sym : Bool
-  sqrt : Bool
-  thr : Rat
-  l : Option EF
-  r : Option EF
-  rlf : Base
-
-/-- the function call `metric(y_true, y_pred, [y_train | y_pred_benchmark], **options)`; `none` = the line lacks a
-required positional argument (harness bug) -/
-def callFn (m : Metric) (a : Args) : Option (Except Err Out) :=
-  match m with
-  | .mae => some (meanAbsoluteError a.yt a.yp a.hw a.mo)
-  | .mse => some (meanSquaredError a.yt a.yp a.hw a.mo a.sqrt)
-  | .mdae => some (medianAbsoluteError a.yt a.yp a.hw a.mo)
-  | .mdse => some (medianSquaredError a.yt a.yp a.hw a.mo a.sqrt)
-  | .mape => some (meanAbsolutePercentageError EPS a.yt a.yp a.hw a.mo a.sym)
-  | .mdape => some (medianAbsolutePercentageError EPS a.yt a.yp a.hw a.mo a.sym)
-  | .mspe => some (meanSquaredPercentageError EPS a.yt a.yp a.hw a.mo a.sqrt a.sym)
-  | .mdspe => some (medianSquaredPercentageError EPS a.yt a.yp a.hw a.mo a.sqrt a.sym)
-  | .masym => some (meanAsymmetricError a.yt a.yp a.hw a.mo a.thr a.l a.r)
-  | .mrae => a.yb.map (fun b => meanRelativeAbsoluteError EPS a.yt a.yp b a.hw a.mo)
-  | .mdrae => a.yb.map (fun b => medianRelativeAbsoluteError EPS a.yt a.yp b a.hw a.mo)
-  | .gmrae => a.yb.map (fun b => geometricMeanRelativeAbsoluteError EPS a.yt a.yp b a.hw a.mo)
-  | .gmrse => a.yb.map (fun b => geometricMeanRelativeSquaredError EPS a.yt a.yp b a.hw a.mo a.sqrt)
-  | .relloss => a.yb.map (fun b => relativeLoss EPS a.yt a.yp b a.rlf a.hw a.mo)
-  | .mase => a.ytr.map (fun t => meanAbsoluteScaledError EPS a.yt a.yp t a.ix a.sp a.hw a.mo)
-  | .mdase => a.ytr.map (fun t => medianAbsoluteScaledError EPS a.yt a.yp t a.ix a.sp a.hw a.mo)
-  | .msse => a.ytr.map (fun t => meanSquaredScaledError EPS a.yt a.yp t a.ix a.sp a.hw a.mo a.sqrt)
-  | .mdsse => a.ytr.map (fun t => medianSquaredScaledError EPS a.yt a.yp t a.ix a.sp a.hw a.mo a.sqrt)
-
 def handle (toks : List String) : String :=
   match toks with
   | [via, metric, yt, yp, yb, ytr, sp, ix, hw, mo, sym, sqrt, thr, l, r, rlf] =>
@@ -133,17 +94,12 @@ def handle (toks : List String) : String :=
       match parseMO? mo, parseBool? sym, parseBool? sqrt, parseRat? thr, parseEF? l, parseEF? r, parseBase? rlf with
       | some mo, some sym, some sqrt, some thr, some l, some r, some rlf =>
         let a : Args := { yt, yp, yb, ytr, sp, ix, hw, mo, sym, sqrt, thr, l, r, rlf }
-        if via == "f" then
-          match callFn metric a with
-          | some res => showRes res
-          | none => "bad-op"
+        if via == "f" then showRes (call EPS metric a)
         else if via == "c" then
           -- the class is called with two arguments; the function it wraps is called with the same options
           -- (and defaults for everything the class does not carry)
           let a' : Args := { a with hw := none, mo := .uniform }
-          match callFn metric a' with
-          | some fn => s!"cls={showRes (classCall EPS metric { sym, sqrt } yt yp)} fn={showRes fn}"
-          | none => "bad-op"
+          s!"cls={showRes (classCall EPS metric { sym, sqrt, sp, thr, l, r, rlf } yt yp)} fn={showRes (call EPS metric a')}"
         else "bad-op"
       | _, _, _, _, _, _, _ => "bad-op"
     | _, _, _, _, _, _, _, _ => "bad-op"
